@@ -44,6 +44,19 @@ pub fn main(args: &[String]) {
         let a = match amod::decode(wasm) { Ok(a) => a, Err(_) => continue };
         let win = match wmodcoq::wmod(wasm, false) { Some(s) => s, None => continue };
         let ni = n_imp_funcs(&a); let nfuncs = ni + a.funcs.len();
+        // the body that is built is the body the function gets: also the EMPTY body (only possible for a function without results) and a one-instruction body
+        for fidx in 0..ni { let sig = crate_sig(&a, fidx as u32); if !sig.1.is_empty() { continue; }
+            for shape in 0..2u8 { let res = catch(|| -> Option<(usize, Vec<String>)> {
+                    let (mut m, pm) = crate::irdump::parse_with_maps(wasm, &mut cfg.module_config()).ok()?; let fid_ix = pm.funcs[fidx]; let fid = m.funcs.iter().find(|f| f.id().index() == fid_ix).unwrap().id();
+                    let nid = m.replace_imported_func(fid, |(b, _args)| { if shape == 1 { b.i32_const(MARKER); b.drop(); } }).ok()?;
+                    let lf = m.funcs.get(nid).kind.unwrap_local(); let n_ir = lf.block(lf.entry_block()).instrs.len();
+                    let (rec, em) = crate::irdump::IndexRecorder::for_module(&m); m.customs.add(rec); let o = m.emit_wasm(); let em = em.lock().unwrap().clone();
+                    let b = amod::decode(&o).ok()?; let nib = n_imp_funcs(&b); let ix = *em.funcs.get(&nid.index())? as usize; let body = b.code.get(ix.checked_sub(nib)?)?;
+                    Some((n_ir, body.ops.iter().map(|o| o.2.to_string()).collect())) });
+                let want: Vec<String> = if shape == 1 { vec!["I32Const".into(), "Drop".into(), "End".into()] } else { vec!["End".into()] };
+                match res { Some(Some((n_ir, ops))) => if ops != want || n_ir != want.len() - 1 { viol.push(v("edit-body-is-not-the-body-that-was-built", "C18", format!("{}: replace_imported_func on function {} with a body of {} instruction(s): the function holds {} instruction(s) and is emitted as {:?}", name, fidx, want.len() - 1, n_ir, ops), wasm)); },
+                    Some(None) => {}, None => viol.push(v("edit-panics", "C18 C02", format!("{}: replace_imported_func on function {} with a body of {} instruction(s) panics", name, fidx, want.len() - 1), wasm)) } }
+            break; }
         for fidx in 0..nfuncs {
             let exported = a.exports.iter().any(|e| e.1 == 0 && e.2 as usize == fidx);
             let kinds: Vec<u8> = if fidx < ni { vec![1] } else if exported { vec![2] } else if r.chance(1, 6) { vec![if r.chance(1, 2) { 1 } else { 2 }] } else { vec![] };   // sometimes an edit that must be refused
